@@ -81,6 +81,31 @@ def check_sensors(w, rep):
             with with_maxdeg(40):
                 verdict(rep, "C12.sensors", "navigation-frame field has magnitude mag_str", closed(w, cm.sumsqr(y0)), cm.ew(I["mag_str"], I["mag_str"], cm.pmul), (), W("measure_mag"),
                         "simulated magnetic field magnitude is not the configured strength", unknown_ok=True)
+            # the estimator's magnetometer innovation is decl - atan2(y_n[1], y_n[0]) (checked below to be its form):
+            # it vanishes at the true attitude only if the horizontal part of the simulated field points along the
+            # declination, B_y cos(decl) - B_x sin(decl) = 0 (a necessary condition of convergence to the truth).
+            with with_maxdeg(40):
+                B = closed(w, y0)
+                d = I["mag_decl"]
+                hz = cm.ew(cm.ew(w.sl(B, 1, 2), cm.CA.cos(d), cm.pmul), cm.ew(w.sl(B, 0, 1), cm.CA.sin(d), cm.pmul), cm.psub)
+                inst = "horizontal direction of the simulated navigation-frame field is the declination (B_y cos d - B_x sin d = 0)"
+                vd, det = decide_by_cases(hz, MatVal(1, 1))          # split on the signs of decl / incl (exp goes through |angle|)
+                if vd == EQUAL:
+                    rep.ok("C12.sensors", inst)
+                elif vd == DIFFERENT:
+                    rep.fail("C12.sensors", inst, "the simulated field's heading differs from the declination the estimator subtracts, the yaw estimate converges to a biased value: %s" % det, where=W("measure_mag"))
+                else:
+                    rep.incomplete("C12.sensors", inst, "cannot decide: %s" % det, where=W("measure_mag"))
+        est_mag = [g for g in cm.FunctionVal.registry if g.fname == "correct_mag" and g.module == MRP]
+        if est_mag:
+            g = est_mag[-1]
+            I = dict(zip(g.in_names, g.ins))
+            O = dict(zip(g.out_names, g.outs))
+            Rn = w.call(w.elem(Mr, w.sl(I["x"], 0, 3)), "to_Matrix")
+            yn = cm.matmul(Rn, I["y_b"])
+            want = cm.ew(I["decl"], cm.CA.atan2(w.sl(yn, 1, 2), w.sl(yn, 0, 1)), cm.psub)
+            verdict(rep, "C12.sensors", "estimator's magnetometer innovation = decl - atan2((R y)_y, (R y)_x)", O["r_mag"], want, (), w.where(MRP, "correct_mag"),
+                    "the magnetometer innovation is not the declination minus the measured heading in the navigation frame")
         if "measure_gyro" in fs:
             f = fs["measure_gyro"]
             I = dict(zip(f.in_names, f.ins))
@@ -160,12 +185,43 @@ def check_wiring(w, rep):
     rep.floor("C12.wiring", 12)
 
 
+def check_schedule(w, rep):
+    """Every correction must be able to run for any configured rates (C12 quantifies over rate settings): the C20
+    rate-limit rule is evaluated on a scratch report and only the verdicts that bear on convergence are kept - a gate
+    that can never open (elapsed time measured since the previous message, or a reversed comparison) starves the
+    correction; a gate that is too permissive does not affect convergence and is left to C20."""
+    from . import c20
+    from ..report import Report
+    scratch = Report("C20", "quick")
+    cx = c20.Ctx(w, scratch)
+    for rel in (c20.UROS, c20.MSGS, c20.EST):
+        cx.fe.get(rel)
+    c20.rule_estimator(cx, {})
+    n = 0
+    for o in scratch.obs:
+        if o.rule != "C20.est-rate-limit" or not o.instance.endswith("is rate limited"):
+            continue
+        inst = o.instance.replace("is rate limited", "can run: its rate gate opens once the minimum period has elapsed since the last applied correction")
+        n += 1
+        if o.status == "ok":
+            rep.ok("C12.schedule", inst, fact=o.fact)
+        elif o.status == "fail" and ("never" in o.msg or "SHORTER" in o.msg):
+            rep.fail("C12.schedule", inst, o.msg, where=(o.file, o.line))
+        elif o.status == "incomplete":
+            rep.incomplete("C12.schedule", inst, o.msg, where=(o.file, o.line))
+        else:
+            rep.na("C12.schedule", inst, "gate is permissive (C20's concern), the correction still runs: %s" % o.msg)
+    rep.floor("C12.schedule", 2)
+
+
 def run(w, rep, tier):
     rep.rule("C12.API", "estimator and simulator equation builders resolve")
     rep.rule("C12.writeback", "on the accepted branch of each correction no state component is identical to its prior for all inputs (a pinned component can never converge)")
-    rep.rule("C12.sensors", "simulated sensors: accelerometer = R(r)^T(0,0,-g) with |.| = g, magnetometer magnitude mag_str, gyro = rate + bias; truth MRP shadow-switched; estimator and simulator accelerometer models agree")
+    rep.rule("C12.sensors", "simulated sensors: accelerometer = R(r)^T(0,0,-g) with |.| = g, magnetometer magnitude mag_str and heading = declination (the angle the estimator subtracts), gyro = rate + bias; truth MRP shadow-switched; estimator and simulator accelerometer models agree")
+    rep.rule("C12.schedule", "accelerometer and magnetometer corrections are reachable for every rate setting: the rate gate compares the time since the last APPLIED correction with the minimum period in the right direction (rule shared with C20)")
     rep.rule("C12.wiring", "every eqs[...](...) call in estimator.py / simulator.py names a shipped function with matching argument and result counts")
     check_writeback(w, rep)
     check_sensors(w, rep)
     check_wiring(w, rep)
+    check_schedule(w, rep)
     rep.undecided_clause("convergence of the estimate over a run (a property of trajectories of three interleaved processes): NOT decided; only necessary conditions are")
